@@ -205,21 +205,16 @@ def run_cli_case(case):
         import re
         selected = [name] if mode == 'use' else [name, second]
         if mode == 'auto':
-            msel = re.search(r'will be demultiplexed using:\n((?:\t.*\n)*)', re.sub(r'\x1b\[[0-9;]*m', '', p.stdout))
-            if msel is None:
-                raise RuntimeError(f'cannot read the selected strategies from the output of demux.py: {p.stdout[-300:]}')
-            n_selected = 0
-            for l in msel.group(1).split('\n'):
-                if not l.strip() or l.startswith('\t- ') or l.startswith('\tAll data'):
-                    break
-                n_selected += 1
-            if n_selected == 0:
-                # nothing was selected, so nothing is promised about the outputs
+            # Which strategy the autodetection selected is read from what the run wrote, not from the wording of its messages: no
+            # demultiplexed and no reject record at all means that nothing was selected (then nothing is promised about the outputs).
+            written = 0
+            for fn in glob.glob(os.path.join(prefix, '*.fastq.gz')):
+                recs_, _err = fq.read_fastq_strict(fn)
+                written += len(recs_ or [])
+            if written == 0:
                 acc.count('config:cli_auto_selected_none')
                 acc.sample = {'config': cfg, 'autodetect_selected': []}
                 return acc
-            if n_selected != 1:
-                raise RuntimeError(f'autodetection selected {n_selected} strategies although one is the maximum')
             # the short name of the selected strategy as the yield table of the log gives it (absent when it accepted nothing)
             logtxt = open(os.path.join(prefix, 'demultiplexing.log')).read()
             selected = sorted(set(x for section in logtxt.split('Strategy\tReads\n')[1:] for x in re.findall(r'^(\S+)\t\d+$', section, flags=re.M))) \
